@@ -378,7 +378,7 @@ def rule_cost_cascade(ctx):
 
 
 def rule_drop_table(ctx):
-    from ppsa.astutil import dotted
+    from ppsa.astutil import dotted, fold
     R = "DROP-TABLE"
     ctx.rule(R, "every call of drop_trafos whose index comes from a table variable (net[elm], net[element_type]) that may be 'trafo3w' passes "
                 "table=<that variable>: drop_trafos defaults to the two-winding table, so a three-winding index would drop the wrong rows")
@@ -401,6 +401,47 @@ def rule_drop_table(ctx):
                            "transformers with these indices are dropped", fi.loc(c))
     if n < 4:
         ctx.fail(f"DROP-TABLE: only {n} drop_trafos calls found (confirmed: 6)")
+    # the generic dispatcher sends both transformer tables to drop_trafos (switch / measurement cascade), with the table name
+    fd = ctx.repo.func(f"{GM}:drop_elements")
+    br = next((x for x in ast.walk(fd.node) if isinstance(x, ast.If) and any(isinstance(c, ast.Call) and (dotted(c.func) or "").endswith("drop_trafos") for st in x.body for c in ast.walk(st))), None)
+    ok = False
+    if br is not None:
+        def ev(t, val):
+            if isinstance(t, ast.Compare) and len(t.ops) == 1:
+                l = val if isinstance(t.left, ast.Name) and t.left.id == "element_type" else (t.left.value if isinstance(t.left, ast.Constant) else None)
+                c = t.comparators[0]
+                r = val if isinstance(c, ast.Name) and c.id == "element_type" else (fold(c) if not isinstance(c, ast.Name) else None)
+                if l is None or r is None:
+                    return None
+                if isinstance(t.ops[0], ast.In):
+                    return l in r
+                if isinstance(t.ops[0], ast.Eq):
+                    return l == r
+            if isinstance(t, ast.BoolOp):
+                vs = [ev(x, val) for x in t.values]
+                return any(vs) if isinstance(t.op, ast.Or) else all(vs)
+            return None
+        v3, v2 = ev(br.test, "trafo3w"), ev(br.test, "trafo")
+        call = next(c for st in br.body for c in ast.walk(st) if isinstance(c, ast.Call) and (dotted(c.func) or "").endswith("drop_trafos"))
+        ok = v3 is True and v2 is True and any(k.arg == "table" and ast.unparse(k.value) == "element_type" for k in call.keywords)
+    ctx.ob(R, f"{GM}::drop_elements::trafo3w-dispatch", ok,
+           "drop_elements(net, 'trafo3w', ...) goes through drop_trafos(table='trafo3w')" if ok else
+           f"`{ast.unparse(br.test) if br is not None else '?'}` does not send 'trafo3w' to drop_trafos(table=element_type): t3 switches and measurements of a "
+           "dropped three-winding transformer survive", fd.loc(br) if br is not None else fd.loc())
+    # fuse_buses never drops the bus everything was re-routed to
+    ff = ctx.repo.func(f"{GM}:fuse_buses")
+    st = next((x for x in ff.node.body if isinstance(x, ast.Assign) and ast.unparse(x.targets[0]) == "b2"), None)
+    t = ast.unparse(st.value).replace(" ", "") if st is not None else ""
+    ctx.ob(R, f"{GM}::fuse_buses::target-not-dropped", "-{b1}" in t, f"b2 = {t[:80]}" if "-{b1}" in t else
+           f"`b2 = {t[:80]}` may contain b1: everything is re-routed to b1 and then b1 is dropped with the rest", ff.loc(st) if st is not None else ff.loc())
+    # reindex_elements re-indexes whatever result rows exist
+    fr = ctx.repo.func(f"{DM}:reindex_elements")
+    g = next((x for x in ast.walk(fr.node) if isinstance(x, ast.If) and "res_element_type" in ast.unparse(x.test) and "shape" in ast.unparse(x.test)), None)
+    t = ast.unparse(g.test).replace(" ", "") if g is not None else ""
+    ok = g is not None and t.endswith("net[res_element_type].shape[0]")
+    ctx.ob(R, f"{DM}::reindex_elements::result-guard", ok, "result index rewritten whenever the result table has rows" if ok else
+           f"`{t[-90:]}`: a result table that is filled only partly keeps the old indices, which are no longer indices of the element table",
+           fr.loc(g) if g is not None else fr.loc())
 
 
 def rule_type_table(ctx):
@@ -437,6 +478,9 @@ def variants(repo):
             "    m_type = net.measurement.element_type == element_type\n    affected = net.measurement[m_type & (net.measurement.element.isin(old_indices))]\n"), None),
         V("switch references selected by the lookup keys", dm, replace_once("(net.switch.element.isin(old_indices))]", "(net.switch.element.isin(lookup.keys()))]"), "REMAP-MASK"),
         V("costs dropped for the bus column only", gm, in_function("drop_elements_at_buses", lambda s: s.replace('                for cost_elm in ["poly_cost", "pwl_cost"]:\n                    net[cost_elm] = net[cost_elm].drop(net[cost_elm].index[\n                        (net[cost_elm].et == element_type) &\n                        (net[cost_elm].element.isin(eid))])', '                if column == "bus":\n                    for cost_elm in ["poly_cost", "pwl_cost"]:\n                        net[cost_elm] = net[cost_elm].drop(net[cost_elm].index[\n                            (net[cost_elm].et == element_type) &\n                            (net[cost_elm].element.isin(eid))])', 1)), "COST-CASCADE"),
+        V("generic drop sends trafo3w to the simple drop", gm, in_function("drop_elements", lambda s: s.replace('    elif "trafo" in element_type:\n        drop_trafos(net, element_index, table=element_type)', '    elif element_type == "trafo":\n        drop_trafos(net, element_index)', 1)), "trafo3w-dispatch"),
+        V("fuse_buses drops its own target", gm, replace_once("b2 = set(b2) - {b1} if isinstance(b2, Iterable) else [b2]", "b2 = set(b2) if isinstance(b2, Iterable) else {b2}"), "target-not-dropped"),
+        V("result index kept when the result table is incomplete", dm, replace_once("            net[res_element_type].shape[0]:\n", "            net[res_element_type].shape[0] == net[element_type].shape[0]:\n"), "result-guard"),
         V("inner trafo3w dropped from the trafo table", gm, in_function("_inner_branches", replace_once("drop_trafos(net, net[elm].index[inner], table=elm)", "drop_trafos(net, net[elm].index[inner])")), "DROP-TABLE"),
         V("t3 code lost", dm, replace_once('{"line": "l", "trafo": "t", "trafo3w": "t3"}[element_type]', 'element_type[0]'), "switch.et=t3"),
         V("trafo3w switches skipped", dm, replace_once('    if element_type in ["line", "trafo", "trafo3w"]:\n        switch_et', '    if element_type in ["line", "trafo"]:\n        switch_et'), "switch.et=t3"),
